@@ -69,8 +69,9 @@ PROPS = {
     "C09": {
         "lean": ["Stackage.Props.C09"],
         "streams": [{"name": "frozen", "quick": 4000, "thorough": 80000}, {"name": "nestedro", "quick": 1000, "thorough": 20000},
-                    {"name": "xferro", "quick": 800, "thorough": 16000}],
-        "rule": "xferro: the read-only instance as the argument of another instance's Transfer (any form): false, and it stays as it was. every exported method of Stack and Condition, enumerated by reflection (a method whose parameter types the sweep does not know makes it refuse to run), "
+                    {"name": "xferro", "quick": 800, "thorough": 16000}, {"name": "condhist", "quick": 1500, "thorough": 30000}],
+        "rule": "condhist (shared with C06): a read-only Condition of which a copy of the handle is kept while the variable is re-initialised (Init is the documented exception because it "
+                "replaces the instance: the held one must stay exactly as it was). xferro: the read-only instance as the argument of another instance's Transfer (any form): false, and it stays as it was. every exported method of Stack and Condition, enumerated by reflection (a method whose parameter types the sweep does not know makes it refuse to run), "
                 "invoked with arguments generated from its parameter types (ints incl. MinInt/MaxInt, strings, tri-state booleans, values incl. stacks / conditions / awkward "
                 "values, errors, operators, closures, auxiliary maps) singly and in sequences of 1-4 on read-only instances of every kind and content (nested trees, capacity, "
                 "mutex); the deep dump (VerifDump of the instance and of every nested Stack / Condition: content, every config field, closure / logger / aux identities) is "
@@ -405,6 +406,9 @@ def projection(pid, stream):
     if pid == "C03" and stream == "sched":
         # "no sequence of calls ever makes Len exceed k", simultaneous calls included: the final length (and content) of the shared stack
         return lambda s: " ".join(st for st in s.split(" ; ") if st.startswith("F "))
+    if pid == "C09" and stream == "condhist":
+        # a read-only Condition that has a second holder: Init / Cond through the variable replace the variable's instance, the held one stays
+        return lambda s: " ; ".join(st[st.index("H["):] if "H[" in st else "-" for st in s.split(" ; "))
     if pid == "C13" and stream == "condhist":
         return _c13_cond
     if pid == "C12" and stream == "condhist":
